@@ -370,3 +370,97 @@ def replay_block_subdiff(args, model):
         exp = float(np.linalg.norm(g0 + lo * W1 / nW))
     bad = not np.isfinite(out) or abs(out - exp) > 1e-8 * (1 + abs(exp))
     return dict(confirmed=bool(bad), detail=f'subdiff_distance={out} expected={exp}', inputs=inputs)
+
+
+# ------------------------------------------------------------------ value() and generalized_support() contracts
+
+def value_task(T, tag):
+    """value(w) == sum_j phi_j(w_j) of the documented penalty; with a positivity constraint (positive=True,
+    PositiveConstraint) or a box, value(w) == +inf exactly at infeasible points -- this is what makes the
+    `objective decreased` guard of an accepted extrapolation imply feasibility (C04)"""
+    import z3
+    from pv import sym, symrun
+    from pv.sproof import check_contract, zpre
+    symrun.install()
+    case = by_tag(tag)
+    zv = {n: z3.Real(n) for n in case.names()}
+    w = [z3.Real('w0'), z3.Real('w1')]
+    specs = [case.spec(zv, j=j) for j in range(2)]
+    pre = zpre([specs[0].params_ok()])
+    if case.cls == 'SCAD':
+        pre += [zv['alpha'] > 0]
+    feas = [s.dom(w[j]) for j, s in enumerate(specs)]
+    feas = [f if f is not True else z3.BoolVal(True) for f in feas]
+
+    def build():
+        pen = case.instantiate({k: sym.SymReal(e) for k, e in zv.items()}, wrap='sym')
+        return pen.value(np.array([sym.SymReal(w[0]), sym.SymReal(w[1])], dtype=object))
+
+    def post(out, p):
+        if sym.is_inf(out):
+            return [('inf-only-at-infeasible-points', [], z3.Not(z3.And(*feas)))]
+        return [('finite-only-at-feasible-points', [], z3.And(*feas)),
+                ('==sum-of-documented-pieces', [z3.And(*feas)], sym.lift(out) == specs[0].phi(w[0]) + specs[1].phi(w[1]))]
+    T.cover('requires', pre)
+    check_contract(T, 'value', build, pre, post, strength='B',
+                   replay=dict(fn='contracts.c08:replay_value', args=dict(tag=tag)))
+
+
+for _c in PENALTIES:
+    add_task(['C08', 'C04', 'C11'], f'{_c.module.split(".")[-1]}:{_c.tag}.value', value_task, strength='B', tag=_c.tag)
+
+KINKS = {'IndicatorBox': lambda v: [0, v['alpha']]}
+
+
+def gsupp_task(T, tag):
+    """generalized_support(w)[j] is False exactly at the kink points of phi_j (0; 0 and alpha for the box):
+    the coordinates a working set may leave out.  For every real w_j, infeasible ones included."""
+    import z3
+    from pv import sym, symrun
+    from pv.sproof import check_contract, zpre
+    symrun.install()
+    case = by_tag(tag)
+    zv = {n: z3.Real(n) for n in case.names()}
+    w = [z3.Real('w0'), z3.Real('w1')]
+    kinks = KINKS.get(case.cls, lambda v: [0])(zv)
+    pre = zpre([case.spec(zv).params_ok()])
+
+    def build():
+        pen = case.instantiate({k: sym.SymReal(e) for k, e in zv.items()}, wrap='sym')
+        return pen.generalized_support(np.array([sym.SymReal(w[0]), sym.SymReal(w[1])], dtype=object))
+
+    def post(out, p):
+        return [(f'[{j}]False-exactly-at-kinks', [], z3.BoolVal(bool(out[j])) == z3.And(*[w[j] != k for k in kinks]))
+                for j in range(2)]
+    check_contract(T, 'generalized_support', build, pre, post, strength='B', safety=False,
+                   replay=dict(fn='contracts.c08:replay_gsupp', args=dict(tag=tag)))
+
+
+for _c in ALL:
+    add_task(['C01', 'C04', 'C05'], f'{_c.module.split(".")[-1]}:{_c.tag}.generalized_support', gsupp_task, strength='B', tag=_c.tag)
+
+
+def replay_value(args, model):
+    case = by_tag(args['tag'])
+    vals = {n: _fl(model, n, 1.0) for n in case.names()}
+    w = np.array([_fl(model, 'w0'), _fl(model, 'w1')])
+    specs = [case.spec(vals, j=j) for j in range(2)]
+    try:
+        out = float(case.native_instance(vals).value(w))
+    except Exception as ex:     # noqa
+        return dict(confirmed=True, detail=f'value raised {type(ex).__name__}: {ex}', inputs=dict(vals, w=w.tolist()))
+    feas = all(bool(s.dom(w[j])) for j, s in enumerate(specs))
+    exp = sum(float(s.phi(w[j])) for j, s in enumerate(specs)) if feas else float('inf')
+    bad = (out != exp) if (np.isinf(out) or np.isinf(exp)) else abs(out - exp) > 1e-9 * (1 + abs(exp))
+    return dict(confirmed=bool(bad), detail=f'value={out} documented={exp}', inputs=dict(vals, w=w.tolist()))
+
+
+def replay_gsupp(args, model):
+    case = by_tag(args['tag'])
+    vals = {n: _fl(model, n, 1.0) for n in case.names()}
+    w = np.array([_fl(model, 'w0'), _fl(model, 'w1')])
+    out = np.asarray(case.native_instance(vals).generalized_support(w))
+    kinks = KINKS.get(case.cls, lambda v: [0])(vals)
+    exp = np.array([all(x != k for k in kinks) for x in w])
+    return dict(confirmed=bool(np.any(out != exp)), detail=f'generalized_support={out.tolist()} expected={exp.tolist()}',
+                inputs=dict(vals, w=w.tolist()))
